@@ -383,8 +383,11 @@ func validatePageSettings(settings *PageSettings) error {
 		const minSize = 12.7  // 0.5英寸
 		const maxSize = 558.8 // 22英寸
 
-		if settings.CustomWidth < minSize || settings.CustomWidth > maxSize ||
-			settings.CustomHeight < minSize || settings.CustomHeight > maxSize {
+		// 读回的尺寸经过 毫米->twips->毫米 换算，恰好等于边界值的尺寸会产生极小的浮点误差
+		const eps = 1e-6
+
+		if settings.CustomWidth < minSize-eps || settings.CustomWidth > maxSize+eps ||
+			settings.CustomHeight < minSize-eps || settings.CustomHeight > maxSize+eps {
 			return fmt.Errorf("页面尺寸必须在%.1f-%.1fmm范围内", minSize, maxSize)
 		}
 	}
